@@ -101,9 +101,9 @@ class PendingModule(PendingNode[Module]):
 
     def get_result(self) -> list[expr]:
         if self.nsp_global.use_itertools:
-            self._insert_import_lib("itertools", "itertools")
+            self._insert_import_lib("itertools", OL_ITERTOOLS)
         if self.nsp_global.use_importlib:
-            self._insert_import_lib("importlib", "importlib")
+            self._insert_import_lib("importlib", OL_IMPORTLIB)
 
         if self.nsp_global.use_preset_iter_wrapper:
             from .presets import iter_wrapper_body
@@ -340,14 +340,15 @@ class PendingWhile(_PendingLoop[While]):
             while_loop_orelse = self.nsp_global.expr_wraper(self.converted_orelse)
 
         # the main body of the oneliner while loop
+        while_tmp = ol_name(OL_WHILE_TMP)  # never clashes with a user's `_`
         while_loop_body = ListComp(
             elt=self.nsp_global.expr_wraper(self.converted_body),
             generators=[
                 comprehension(
-                    target=Name(id="_", ctx=Store()),
+                    target=Name(id=while_tmp, ctx=Store()),
                     iter=Call(
                         func=Attribute(
-                            value=Name(id="itertools", ctx=Load()),
+                            value=Name(id=OL_ITERTOOLS, ctx=Load()),
                             attr="takewhile",
                             ctx=Load(),
                         ),
@@ -355,7 +356,7 @@ class PendingWhile(_PendingLoop[While]):
                             Lambda(
                                 args=arguments(
                                     posonlyargs=[],
-                                    args=[arg(arg="_")],
+                                    args=[arg(arg=while_tmp)],
                                     kwonlyargs=[],
                                     kw_defaults=[],
                                     defaults=[],
@@ -364,7 +365,7 @@ class PendingWhile(_PendingLoop[While]):
                             ),
                             Call(
                                 func=Attribute(
-                                    value=Name(id="itertools", ctx=Load()),
+                                    value=Name(id=OL_ITERTOOLS, ctx=Load()),
                                     attr="count",
                                     ctx=Load(),
                                 ),
@@ -1221,7 +1222,7 @@ class PendingImport(PendingNode[Import]):
                     asname,
                     Call(
                         func=Attribute(
-                            value=Name(id="importlib", ctx=Load()),
+                            value=Name(id=OL_IMPORTLIB, ctx=Load()),
                             attr="import_module",
                         ),
                         args=[Constant(value=_alias.name)],
